@@ -151,6 +151,10 @@ fn oracle_reader(depth: usize) -> bool {
                         }
                     }
                 }
+                // where the cursor stands after the script (a read that delivers nothing must not move it)
+                let end = h.seek(SeekFrom::Current(0));
+                tr(&format!("end {:?}", end.as_ref().map_err(|e| e.kind())));
+                match end { Ok(g) if g as i128 == pos => {} other => return Some(format!("after the script the cursor stands at {:?}, expected {}", other.map_err(|e| e.to_string()), pos)) }
                 None
             }));
             match res { Err(_) => r.fail(format!("content={:?} script={:?}", content, script), "panicked".into()),
@@ -917,7 +921,7 @@ fn oracle_times() -> bool {
 fn oracle_handles() -> bool {
     let mut r = Report::new("handles");
     for kind in ["memory", "altroot", "overlay"] {
-        for scenario in 0..6 {
+        for scenario in 0..8 {
             r.case();
             let (root, _extra) = make_backend(kind);
             root.join("d").unwrap().create_dir().unwrap();
@@ -930,7 +934,21 @@ fn oracle_handles() -> bool {
                     2 => { let mut h = f.append_file().unwrap(); h.write_all(b"d").unwrap(); root.join("d").unwrap().remove_dir_all().unwrap(); let _ = h.flush(); drop(h); }
                     3 => { let mut h = f.open_file().unwrap(); f.remove_file().unwrap(); let mut b = vec![]; let _ = h.read_to_end(&mut b); let _ = h.seek(SeekFrom::End(-1)); let _ = h.read(&mut [0u8; 4]); }
                     4 => { let mut h = f.create_file().unwrap(); h.write_all(b"xy").unwrap(); let _ = h.seek(SeekFrom::Start(10)); f.remove_file().unwrap(); let _ = f.create_file().map(|mut g| g.write_all(b"other")); drop(h); }
-                    _ => { let h1 = f.append_file().unwrap(); let mut h2 = f.append_file().unwrap(); h2.write_all(b"2").unwrap(); drop(h2); f.remove_file().unwrap(); drop(h1); }
+                    5 => { let h1 = f.append_file().unwrap(); let mut h2 = f.append_file().unwrap(); h2.write_all(b"2").unwrap(); drop(h2); f.remove_file().unwrap(); drop(h1); }
+                    6 => {
+                        // two write handles on one file: every flush, and the drop, publishes exactly the buffer of its own handle (C14)
+                        let mut a = f.create_file().unwrap(); a.write_all(b"AAA").unwrap(); a.flush().unwrap();
+                        let mut b = f.create_file().unwrap(); b.write_all(b"zz").unwrap(); b.flush().unwrap();
+                        if f.read_to_string().ok().as_deref() != Some("zz") { return Some("after the second handle's flush the file does not hold its buffer".into()); }
+                        a.flush().unwrap();
+                        if f.read_to_string().ok().as_deref() != Some("AAA") { return Some(format!("a repeated flush of the first handle does not publish its buffer: file holds {:?}", f.read_to_string().ok())); }
+                        drop(b);
+                        if f.read_to_string().ok().as_deref() != Some("zz") { return Some("dropping the second handle does not publish its buffer".into()); }
+                        drop(a);
+                        if f.read_to_string().ok().as_deref() != Some("AAA") { return Some(format!("dropping the first handle does not publish its buffer: file holds {:?}", f.read_to_string().ok())); }
+                    }
+                    _ => { let h = f.create_file().unwrap(); let mut g = f.create_file().unwrap(); g.write_all(b"late").unwrap(); drop(g); drop(h);
+                           tr(&format!("idle {:?}", f.read_to_string().ok())); let h2 = f.create_file().unwrap(); f.remove_file().unwrap(); drop(h2); }
                 }
                 // the filesystem is still usable (no poisoned lock, no panic on later calls)
                 let o = root.join("other").unwrap();
